@@ -12,8 +12,11 @@ import (
 	"io"
 	"os"
 	"path/filepath"
+	"runtime"
+	"runtime/debug"
 	"sort"
 	"strings"
+	"sync/atomic"
 	"time"
 
 	homedir "github.com/mitchellh/go-homedir"
@@ -325,6 +328,10 @@ type procCfg struct {
 	IOErrFrom   int // from this I/O operation on, creating and writing fail with ENOSPC
 	CondAny     bool
 	UnlockY     bool `json:"unlock_yields,omitempty"`
+	// GCHammer: while the case runs the Go runtime collects garbage all the time (GOGC=1 and a
+	// goroutine outside the simulator that calls runtime.GC in a loop). Garbage collection is
+	// the one source of nondeterminism the simulator cannot own; see DESIGN.md 12.2.
+	GCHammer bool `json:"gc_hammer,omitempty"`
 	ReadDirPerm bool
 	SplitWrites bool
 	MapFixed    bool
@@ -506,6 +513,25 @@ func (w *world) replRun(proj *Project, bo buildOpts) error {
 		{starlark.String("callback"), cb},
 	})
 	return err
+}
+
+// startGCHammer makes the Go runtime collect garbage continuously until the returned function
+// is called.
+func startGCHammer() func() {
+	old := debug.SetGCPercent(1)
+	var stop atomic.Bool
+	done := make(chan struct{})
+	go func() {
+		for !stop.Load() {
+			runtime.GC()
+		}
+		close(done)
+	}()
+	return func() {
+		stop.Store(true)
+		<-done
+		debug.SetGCPercent(old)
+	}
 }
 
 // ---------------------------------------------------------------- scratch directories
